@@ -10,11 +10,12 @@
 //!   conditions -> every bit assigned under them; inside `always_comb` and
 //!   function bodies a read sees the latest earlier write (statement order);
 //!   functions are inlined per call; instances are flattened.
-//! * `doc`    — `fine` made exactly as coarse as the checker *documents* itself
-//!   to be: instance boundaries are port level (`ModuleCombSummary`:
-//!   "Port-level only"), an unused function formal still counts as a
-//!   dependency of the result (the checker's own ignored test
-//!   "false positive; unused function actual is not a return dependency").
+//! * `doc`    — `fine` made as coarse as the checker documents itself to be
+//!   (c14.rs `DOCUMENTED_COARSE`): instance boundaries are port level
+//!   (`ModuleCombSummary`: "Port-level only"), a constant shift nested under an
+//!   every-bit operator keeps the bits shifted out; modules in which the
+//!   bounded end-point propagation loses a boundary (periodic.rs) are held to
+//!   `coarse` only.
 //! * `coarse` — one node per variable / port, no statement order.
 //!
 //! `Sem` also carries the *defect models*: the semantics the checker is known
@@ -344,7 +345,9 @@ pub fn build(d: &Design, sem: Sem) -> Vec<ModGraph> {
                     let cg = &graphs[*child];
                     let cin = c.inputs();
                     let cout = c.outputs();
-                    let act: Vec<Vec<Deps>> = ins.iter().map(|e| ev.expr(e, &Env::default())).collect();
+                    // port level: every bit *mentioned* in the actual counts (a shift
+                    // inside the actual does not drop bits), see InstanceActualAnalysis
+                    let act: Vec<Vec<Deps>> = ins.iter().map(|e| ev.expr_f(e, &Env::default(), sem.port_level)).collect();
                     if sem.port_level {
                         let mut pairs: BTreeSet<(usize, usize)> = BTreeSet::new();
                         for (ip, _, op, _) in &cg.feed {
